@@ -41,6 +41,10 @@ BUILD_STUBS = [
     {'name': 'n0b', 'kind': 'func',
      'params': [['uid', 'pk', None], ['x', 'pk', 'v'], ['y', 'pk', 'v'],
                 ['w', 'pk', 'v']]},
+    # takes anything by keyword: an update_callable target that keeps every
+    # named argument (as a **kwargs entry)
+    {'name': 'n7', 'kind': 'func',
+     'params': [['uid', 'pk', None], ['x', 'pk', 'v'], ['kw', 'vk', None]]},
     # tags attached by annotation (and a cold type-hints cache per run)
     {'name': 'n6', 'kind': 'func',
      'params': [['uid', 'pk', None], ['x', 'pk', 'v', ['T1']],
